@@ -722,19 +722,26 @@ pub fn _parse_grep_line<'b>(regex: &Regex, line: &'b str) -> Option<GrepLine<'b>
     .iter()
     .find_map(|(i, line_type)| {
         if caps.get(*i).is_some() {
-            let line_number: Option<usize> = caps.get(i + 1).and_then(|m| m.as_str().parse().ok());
+            let line_number = caps.get(i + 1).map(|m| m.as_str().parse::<usize>());
             Some((*line_type, line_number))
         } else {
             None
         }
     })
     .unwrap(); // The regex matches so one of the three alternatives must have matched
+    let line_number = match line_number {
+        Some(Ok(n)) => Some(*n),
+        // A number that cannot be represented: do not treat this as a grep line. (With the number
+        // dropped, the code would no longer correspond to the text following path and number.)
+        Some(Err(_)) => return None,
+        None => None,
+    };
     let code = caps.get(8).unwrap().as_str().into();
 
     Some(GrepLine {
         grep_type: GrepType::Classic,
         path: file,
-        line_number: *line_number,
+        line_number,
         line_type: *line_type,
         code,
         submatches: None,
